@@ -47,6 +47,21 @@ class Space:
                     return out
         if name == "hypot":
             return self.fn("sqrt", args[0] ** 2 + args[1] ** 2)
+        if name == "mod" and len(args) == 2 and args[1].is_const() and args[0].den == ONE:
+            # mod(mod(a, m) + c, m) == mod(a + c, m)
+            a, m = args
+            num = {}
+            changed = False
+            for mono, coef in a.num.items():
+                if len(mono) == 1 and mono[0][1] == 1 and coef == 1 and self.atoms[mono[0][0]][0] == "fn" and self.atoms[mono[0][0]][1][0] == "mod" \
+                        and self.atoms[mono[0][0]][1][2] == m and self.atoms[mono[0][0]][1][1].den == ONE:
+                    for m2, c2 in self.atoms[mono[0][0]][1][1].num.items():
+                        num[m2] = num.get(m2, 0) + c2
+                    changed = True
+                else:
+                    num[mono] = num.get(mono, 0) + coef
+            if changed:
+                return self.fn("mod", R(self, num), m)
         if name == "abs" and len(args) == 1:
             a = args[0].single_atom()
             if a is not None and self.atoms[a][0] == "fn" and self.atoms[a][1][0] in ("abs", "sqrt", "hypot"):
